@@ -375,7 +375,7 @@ def diff_cols(a, b):
 
 
 def run(ctx):
-    ctx.hypothesis(st_case(), check_case, ctx.scale(1200, 40000), label="history")
+    ctx.hypothesis(st_case(), check_case, ctx.scale(1200, 24000), label="history")
 
 
 def replay(case, ctx):
